@@ -388,11 +388,62 @@ let c12_sb (line : string) : string =
     | _ -> bad "unreadable-output") secs;
   if !fail = [] then "true" else "false " ^ String.concat " " (List.rev !fail)
 
+(* ---- C17: every executed row received the value its label renders; the executed rows are the selected
+   ones; every argument list was evaluated once ---- *)
+let parse_val (s : string) : value option =
+  if s = "" then None else
+    let rest = String.sub s 1 (String.length s - 1) in
+    match s.[0] with
+    | 'i' -> Some (VInt (z_of_string rest))
+    | 'd' -> Some (VDbg (z_of_string rest))
+    | 's' -> Some (VStr (sdec rest))
+    | _ -> None
+
+let c17_sb (line : string) : string =
+  let (case, impl) = split_sb line in
+  let (c, benches, groups) = parse_case case in
+  let secs = sections_of impl in
+  let cfg0 = mk_cfg c c.pos c.exact in
+  let fail = ref [] in
+  let bad s = if not (List.mem s !fail) then fail := s :: !fail in
+  let expected = List.map (fun ((id, path), arg) ->
+      enc (ts path) ^ "=C" ^ string_of_n id ^ (match arg with None -> "" | Some (_, v) -> "=" ^ render_val v))
+      (flat_exec cfg0 benches groups) in
+  List.iter (fun (act, body) ->
+    match act with
+    | 'R' | 'Q' ->
+      let (items, made, rest) = read_tree body in
+      if rest <> [] then bad ("run-status:" ^ String.concat "," rest);
+      if has_mismatch items then bad "run-leaves-and-calls-differ";
+      let got = List.filter_map (fun it ->
+          if String.length it > 2 && it.[0] = 'X' then Some (String.sub it 2 (String.length it - 2)) else None) items in
+      List.iter (fun it ->
+          match String.split_on_char '=' it with
+          | [p; _; v] ->
+            (match parse_val v with
+             | Some value -> if not (c17_label_sb (sdec p) value) then bad ("row-label-is-not-the-received-value:" ^ it)
+             | None -> bad ("unreadable-value:" ^ it))
+          | _ -> ()) got;
+      if not (c12_flat_sb (List.map st expected) (List.map st got)) then begin
+        let missing = List.filter (fun x -> not (List.mem x got)) expected
+        and extra = List.filter (fun x -> not (List.mem x expected)) got in
+        bad ("executed-rows-are-not-the-selected-ones missing=" ^ String.concat "+" missing ^ " unexpected=" ^ String.concat "+" extra)
+      end;
+      let counts = List.filter_map (fun m ->
+          match String.index_opt m 'x' with
+          | Some i -> Some (n_of_string (String.sub m (i + 1) (String.length m - i - 1)))
+          | None -> None) (items_of made) in
+      if not (c17_once_sb counts) then bad ("argument-list-evaluated-more-than-once:" ^ made)
+    | 'T' | 'D' | 'L' | 'A' | 'K' | 'E' -> ()
+    | _ -> bad "unreadable-output") secs;
+  if !fail = [] then "true" else "false " ^ String.concat " " (List.rev !fail)
+
 let dispatch mode line =
   match mode with
   | "c14" | "c12" | "c17" | "run" -> model_run line
   | "c14.sb" -> c14_sb line
   | "c12.sb" -> c12_sb line
+  | "c17.sb" -> c17_sb line
   | _ -> failwith ("unknown mode " ^ mode)
 
 let () = main dispatch
